@@ -9,7 +9,12 @@ func funcComputedCompute(ctx *Context, this *VMValue, params []*VMValue) *VMValu
 }
 
 func funcArrayKeepLow(ctx *Context, this *VMValue, params []*VMValue) *VMValue {
-	isAllInt, ret := this.ArrayFuncKeepLow(ctx, params[0].MustReadInt())
+	pickNum, ok := params[0].ReadInt()
+	if !ok {
+		ctx.Error = errors.New("类型错误: 取高/取低的个数必须为整数")
+		return nil
+	}
+	isAllInt, ret := this.ArrayFuncKeepLow(ctx, pickNum)
 	if isAllInt {
 		return NewIntVal(IntType(ret))
 	} else {
@@ -18,7 +23,12 @@ func funcArrayKeepLow(ctx *Context, this *VMValue, params []*VMValue) *VMValue {
 }
 
 func funcArrayKeepHigh(ctx *Context, this *VMValue, params []*VMValue) *VMValue {
-	isAllInt, ret := this.ArrayFuncKeepHigh(ctx, params[0].MustReadInt())
+	pickNum, ok := params[0].ReadInt()
+	if !ok {
+		ctx.Error = errors.New("类型错误: 取高/取低的个数必须为整数")
+		return nil
+	}
+	isAllInt, ret := this.ArrayFuncKeepHigh(ctx, pickNum)
 	if isAllInt {
 		return NewIntVal(IntType(ret))
 	} else {
